@@ -287,31 +287,20 @@ uint8_t CanPayloadBase::encodeDlc(const uint8_t dataLength)
     if (dataLength <= 8)
         return dataLength;
 
-    switch (dataLength)
-    {
-        case 12:
-            return 9;
-            break;
-        case 16:
-            return 10;
-            break;
-        case 20:
-            return 11;
-            break;
-        case 24:
-            return 12;
-            break;
-        case 32:
-            return 13;
-            break;
-        case 48:
-            return 14;
-            break;
-        case 64:
-            return 15;
-            break;
-    }
-    return 0;
+    // CAN FD data fields hold 12, 16, 20, 24, 32, 48 or 64 bytes (DLC 9..15): a length between two steps needs the next larger one
+    if (dataLength <= 12)
+        return 9;
+    if (dataLength <= 16)
+        return 10;
+    if (dataLength <= 20)
+        return 11;
+    if (dataLength <= 24)
+        return 12;
+    if (dataLength <= 32)
+        return 13;
+    if (dataLength <= 48)
+        return 14;
+    return 15;
 }
 
 END_NAMESPACE_ASAM_CMP
